@@ -5,15 +5,25 @@ import Mathlib.Tactic.Linarith
 import Mathlib.Data.List.Basic
 /-
   C20: OpenPGP signatures and encryption are tamper-evident (model: Tmcg/Model/PgpMsg.lean).
+  All theorems below are proved (no `sorry`); axioms: propext, Classical.choice, Quot.sound.
 
-  1. CFB with modification detection code: `cfb_decrypt_encrypt`, `sym_roundtrip`, `mdc_detects`,
-     `no_mdc_refused`, `seipd_roundtrip`.
-  2. AEAD chunks: `aead_decrypt_encrypt` (from `open (seal p) = some p`), and under the ideal-AEAD
-     hypothesis `Ideal` (the only tuples that open are the ones the sender sealed):
-     `aead_tamper_evident`, `aead_reorder_detected`, `aead_truncation_detected`, `aead_ad_bound`.
-  3. Signatures: `hash_input_injective_*` (what is hashed determines document, hashed fields and
-     keys: tampering is detected unless the digests collide), `verifySig_digest` (the verdict
-     depends on the signed data through the digest only), `validity_logic`, `left16_check`.
+  1. CFB with modification detection code (the block cipher `E` and `sha1` are arbitrary functions):
+     `cfb_decrypt_encrypt`, `sym_roundtrip`, `mdc_detects` (exact acceptance condition of `Decrypt`),
+     `no_mdc_refused`, `sed_packet_refused`, `seipd_roundtrip`.
+  2. AEAD chunks (`sealf`, `open_` arbitrary): `aead_decrypt_encrypt` from `SealOpen` (lengths and
+     `open (seal p) = some p`), `aead_empty_refused`; under the ideal-AEAD hypothesis `Ideal` (a tuple
+     opens under the key only if it is one of the tuples the sender sealed for this message, and then it
+     is the sealed value): `aead_tamper_evident` (every accepted string is the sender's cipher text),
+     with the corollaries `aead_reorder_detected`, `aead_truncation_detected`, and `aead_ad_bound`.
+     Neither proof uses distinctness of the nonces (the library's nonces repeat: `nonceStep`); the
+     chunk index and the total length in the additional data carry the argument.
+  3. Signatures: `validity_logic`, `validity_expired_flag`, `weak_hash_refused`, `left16_check`,
+     `left16_pass`, `verifySig_digest` (the verdict depends on the signed data through the digest only),
+     `hash_input_injective_{binary,text,standalone,key,key2,cert}` and `sigTrailer_inj` (what is hashed
+     determines document / canonical text, keys, user ID and all hashed fields, so tampering is detected
+     unless the digests collide), `textCanon_idem`, `textCanon_crlf`.
+  4. Packets: `msgParse_{seipd,sed,aead}Packet`, and end to end `seipd_message_roundtrip`,
+     `aead_message_roundtrip`.
 -/
 set_option linter.unusedSimpArgs false
 set_option linter.unusedSectionVars false
@@ -65,6 +75,71 @@ theorem keyChecksum_lt (k : Bytes) : keyChecksum k < 65536 := by
   | nil => simp
   | append_singleton l a _ => rw [List.foldl_append]; simp only [List.foldl_cons, List.foldl_nil]; omega
 
+theorem length_cfbEncrypt (F : Bytes → Bytes) (bs : Nat) (resync : Bool) (pre body : Bytes) :
+    (cfbEncrypt F bs resync pre body).length = pre.length + body.length := by
+  unfold cfbEncrypt
+  simp only [List.length_append, length_cfbEncStream]
+
+theorem length_wrapKey (a : Nat) (k : Bytes) : (wrapKey a k).length = k.length + 3 := by
+  unfold wrapKey; simp
+
+theorem wrapKey_ne_nil (a : Nat) (k : Bytes) : wrapKey a k ≠ [] := by
+  unfold wrapKey; simp
+
+theorem headD_wrapKey (a : Nat) (k : Bytes) : (wrapKey a k).headD 0 = a := by
+  unfold wrapKey; simp
+
+theorem wrapKey_key (a : Nat) (k : Bytes) : ((wrapKey a k).drop 1).take k.length = k := by
+  unfold wrapKey
+  simp
+
+theorem wrapKey_checksum (a : Nat) (k : Bytes) :
+    (wrapKey a k).getD (1 + k.length) 0 * 256 + (wrapKey a k).getD (2 + k.length) 0 = keyChecksum k := by
+  have h := keyChecksum_lt k
+  have e1 : (wrapKey a k).getD (1 + k.length) 0 = keyChecksum k / 256 % 256 := by
+    unfold wrapKey
+    have : 1 + k.length = (a :: k).length + 0 := by simp; omega
+    rw [this, List.getD_eq_getElem?_getD, List.getElem?_append_right (by omega)]
+    simp
+  have e2 : (wrapKey a k).getD (2 + k.length) 0 = keyChecksum k % 256 := by
+    unfold wrapKey
+    have : 2 + k.length = (a :: k).length + 1 := by simp; omega
+    rw [this, List.getD_eq_getElem?_getD, List.getElem?_append_right (by omega)]
+    simp
+  rw [e1, e2]
+  omega
+
+theorem decSessionKey_wrap (ks a algo : Nat) (b : Bool) (k : Bytes) (hk : k.length = ks) :
+    decSessionKey ks algo b (wrapKey a k) = .ok (k, wrapKey a k) := by
+  subst hk
+  unfold decSessionKey
+  rw [if_pos (length_wrapKey a k)]
+  simp only [wrapKey_key, wrapKey_checksum, ne_eq, not_true_eq_false, if_false]
+
+/-- what is sealed with the OpenPGP CFB under a wrapped key is read back by `SymmetricDecrypt` -/
+theorem symDecrypt_cfbEncrypt (E : Bytes → Bytes → Bytes) (algo : Nat) (k pre input : Bytes) (resync : Bool)
+    (hbs : blockLength algo ≠ 0) (hks : keyLength algo ≠ 0) (hk : k.length = keyLength algo)
+    (hp : pre.length = blockLength algo + 2)
+    (hrep : pre.getD (blockLength algo) 0 = pre.getD (blockLength algo - 2) 0 ∧
+            pre.getD (blockLength algo + 1) 0 = pre.getD (blockLength algo - 1) 0) :
+    symDecrypt E algo (cfbEncrypt (E k) (blockLength algo) resync pre input) (wrapKey algo k) [] resync
+      = ⟨0, wrapKey algo k, pre, input⟩ := by
+  unfold symDecrypt
+  simp only
+  rw [if_neg (by simp [hbs, hks]), if_neg (wrapKey_ne_nil algo k), decSessionKey_wrap _ _ _ _ _ hk]
+  simp only
+  rw [if_neg (by rw [length_cfbEncrypt]; omega), cfb_decrypt_encrypt _ _ _ _ _ hp]
+  simp only [List.nil_append]
+  rw [if_neg (by simp only [hrep.1, hrep.2, ne_eq, not_true_eq_false, or_self, not_false_eq_true])]
+
+
+theorem encSessionKey_wrap (ks a : Nat) (coins : List Bytes) (k : Bytes) (hk : k.length = ks) :
+    encSessionKey ks a coins (wrapKey a k) = .ok (k, wrapKey a k, coins) := by
+  subst hk
+  unfold encSessionKey
+  rw [if_pos (length_wrapKey a k), if_neg (by rw [headD_wrapKey]; exact fun h => h rfl)]
+  simp only [wrapKey_key, wrapKey_checksum, ne_eq, not_true_eq_false, if_false]
+
 /-- **library round trip**: what `SymmetricEncryptAES256` writes for a wrapped 256-bit key and a
     given prefix, `SymmetricDecrypt` reads back: key, prefix and plaintext -/
 theorem sym_roundtrip (E : Bytes → Bytes → Bytes) (k pre input : Bytes) (resync : Bool)
@@ -73,7 +148,74 @@ theorem sym_roundtrip (E : Bytes → Bytes → Bytes) (k pre input : Bytes) (res
     (symEncryptAES256 E [] input (wrapKey 9 k) pre resync).rc = 0 ∧
     symDecrypt E 9 (symEncryptAES256 E [] input (wrapKey 9 k) pre resync).out (wrapKey 9 k) [] resync
       = ⟨0, wrapKey 9 k, pre, input⟩ := by
-  sorry
+  have he : symEncryptAES256 E [] input (wrapKey 9 k) pre resync =
+      ⟨0, wrapKey 9 k, pre, cfbEncrypt (E k) 16 resync pre input⟩ := by
+    unfold symEncryptAES256 SKALGO_AES256
+    rw [encSessionKey_wrap 32 9 [] k hk]
+    simp only [hp, ne_eq, not_true_eq_false, if_false]
+  rw [he]
+  refine ⟨rfl, ?_⟩
+  have hb : blockLength 9 = 16 := rfl
+  have hl : keyLength 9 = 32 := rfl
+  have := symDecrypt_cfbEncrypt E 9 k pre input resync (by rw [hb]; omega) (by rw [hl]; omega)
+    (by rw [hl]; exact hk) (by rw [hb]; exact hp) (by rw [hb]; exact hrep)
+  rw [hb] at this
+  exact this
+
+theorem getD_of_lt (l : Bytes) (n : Nat) (h : n < l.length) : l.getD n 0 = l[n] := by
+  simp [List.getD_eq_getElem?_getD, h]
+
+theorem tail_decomp (out : Bytes) (h : 22 ≤ out.length) :
+    out = out.take (out.length - 22) ++
+      [out.getD (out.length - 22) 0, out.getD (out.length - 21) 0] ++ out.drop (out.length - 20) := by
+  have h1 : out.length - 22 < out.length := by omega
+  have h2 : out.length - 21 < out.length := by omega
+  conv_lhs => rw [← List.take_append_drop (out.length - 22) out]
+  rw [List.append_assoc]
+  congr 1
+  rw [List.drop_eq_getElem_cons h1]
+  have e1 : out.length - 22 + 1 = out.length - 21 := by omega
+  rw [e1, List.drop_eq_getElem_cons h2]
+  have e2 : out.length - 21 + 1 = out.length - 20 := by omega
+  rw [e2, getD_of_lt _ _ h1, getD_of_lt _ _ h2]
+  rfl
+
+theorem mdc_accept_iff (sha1 : Bytes → Bytes) (pfx out : Bytes) (hsha : ∀ x, (sha1 x).length = 20) :
+    (¬ out.length < 22 ∧ ¬ (out.getD (out.length - 22) 0 ≠ 0xD3 ∨ out.getD (out.length - 21) 0 ≠ 0x14) ∧
+      ¬ out.take (out.length - 22) = [] ∧
+      out.drop (out.length - 20) = sha1 (mdcHashInput pfx (out.take (out.length - 22)))) ↔
+    ∃ body, body ≠ [] ∧ out = body ++ mdcPacket sha1 pfx body := by
+  constructor
+  · rintro ⟨h1, h2, h3, h4⟩
+    refine ⟨out.take (out.length - 22), h3, ?_⟩
+    have h22 : 22 ≤ out.length := by omega
+    have hd := tail_decomp out h22
+    have ha : out.getD (out.length - 22) 0 = 0xD3 := by
+      by_contra hc; exact h2 (Or.inl hc)
+    have hb : out.getD (out.length - 21) 0 = 0x14 := by
+      by_contra hc; exact h2 (Or.inr hc)
+    rw [ha, hb, h4] at hd
+    unfold mdcPacket
+    rw [← List.append_assoc]
+    exact hd
+  · rintro ⟨body, hb, he⟩
+    have hl : out.length = body.length + 22 := by
+      rw [he]; unfold mdcPacket; simp [hsha]
+    have e22 : out.length - 22 = body.length := by omega
+    have e21 : out.length - 21 = body.length + 1 := by omega
+    have e20 : out.length - 20 = body.length + 2 := by omega
+    rw [e22, e21, e20]
+    have ht : out.take body.length = body := by rw [he, List.take_left]
+    refine ⟨by omega, ?_, ?_, ?_⟩
+    · rw [he]; unfold mdcPacket
+      simp [List.getD_eq_getElem?_getD, List.getElem?_append_right]
+    · rw [ht]; exact hb
+    · rw [ht]
+      conv_lhs => rw [he]
+      unfold mdcPacket
+      rw [← List.append_assoc]
+      have : body.length + 2 = (body ++ [0xD3, 0x14]).length := by simp
+      rw [this, List.drop_left]
 
 /-- **exact acceptance condition of `Decrypt` for integrity protected data**: the CFB layer succeeds
     (session key form and checksum, prefix repeat) and the decrypted text is a non-empty body followed
@@ -89,7 +231,32 @@ theorem mdc_detects (E : Bytes → Bytes → Bytes) (sha1 : Bytes → Bytes) (op
           (symDecrypt E (if key ≠ [] then key.headD 0 else m.skalgo) m.encrypted sk [] false).out =
             body ++ mdcPacket sha1
               (symDecrypt E (if key ≠ [] then key.headD 0 else m.skalgo) m.encrypted sk [] false).pfx body := by
-  sorry
+  unfold msgDecrypt
+  simp only [ha, hs, Bool.not_false, and_true, Bool.false_eq_true, if_false, if_true]
+  generalize (if key ≠ [] then key.headD 0 else m.skalgo) = algo
+  by_cases he : m.encrypted = []
+  · rw [if_pos he]; simp [he]
+  · rw [if_neg he]
+    cases hsk : msgSessionKey (keyLength algo) key with
+    | none => simp
+    | some sk =>
+      simp only [Option.some.injEq, exists_eq_left']
+      generalize symDecrypt E algo m.encrypted sk [] false = r
+      rw [← mdc_accept_iff sha1 r.pfx r.out hsha]
+      by_cases hrc : r.rc = 0
+      · rw [if_neg (by simpa using hrc)]
+        by_cases h1 : r.out.length < 22
+        · rw [if_pos h1]; exact ⟨fun h => absurd h (by simp), fun h => absurd h1 h.2.2.1⟩
+        · rw [if_neg h1]
+          by_cases h2 : (r.out.getD (r.out.length - 22) 0 ≠ 0xD3 ∨ r.out.getD (r.out.length - 21) 0 ≠ 0x14)
+          · rw [if_pos h2]; exact ⟨fun h => absurd h (by simp), fun h => absurd h2 h.2.2.2.1⟩
+          · rw [if_neg h2]
+            by_cases h3 : r.out.take (r.out.length - 22) = []
+            · rw [if_pos h3]; exact ⟨fun h => absurd h (by simp), fun h => absurd h3 h.2.2.2.2.1⟩
+            · rw [if_neg h3]
+              simp only [decide_eq_true_eq]
+              exact ⟨fun h => ⟨he, hrc, h1, h2, h3, h⟩, fun h => h.2.2.2.2.2⟩
+      · rw [if_pos hrc]; exact ⟨fun h => absurd h (by simp), fun h => absurd h.2.1 hrc⟩
 
 /-- **encrypted data without integrity protection is refused**: whatever the key and the cipher text,
     `Decrypt` fails for a message that is neither integrity protected (tag 18) nor AEAD (tag 20) -/
@@ -104,11 +271,55 @@ theorem no_mdc_refused (E : Bytes → Bytes → Bytes) (sha1 : Bytes → Bytes) 
     · rfl
     · split <;> (split <;> rfl)
 
+/-- the first octet `C9` makes the first packet a new-format packet with tag 9 -/
+theorem packetSplit_C9_tag (xs : Bytes) (p : Pkt) (r : Bytes)
+    (h : packetSplit (201 :: xs) = some (p, r)) : p.tag = 9 := by
+  unfold packetSplit at h
+  simp only at h
+  rw [if_neg (by decide)] at h
+  split at h
+  · cases h
+  · injection h with h
+    injection h with h1 h2
+    subst h1
+    simp
+
+/-- a packet sequence that starts with the octet `C9` parses, if at all, to a message with only
+    the `haveSed` flag -/
+theorem msgParse_C9 (xs : Bytes) (m : Msg) (h : msgParse (201 :: xs) = .ok m) :
+    m.haveSeipd = false ∧ m.haveAead = false := by
+  unfold msgParse at h
+  simp only [List.length_cons] at h
+  unfold msgParseLoop at h
+  rw [if_neg (by simp)] at h
+  split at h
+  · cases h
+  · rename_i p rest hp
+    have ht := packetSplit_C9_tag xs p rest hp
+    have hd : decodePacket p = .err ∨ decodePacket p = .sed p.body := by
+      unfold decodePacket
+      rw [if_pos ht]
+      split
+      · exact Or.inl rfl
+      · exact Or.inr rfl
+    rcases hd with hd | hd
+    · rw [hd] at h; cases h
+    · rw [hd] at h
+      simp only at h
+      injection h with h
+      subst h
+      exact ⟨rfl, rfl⟩
+
 /-- a Symmetrically Encrypted Data packet (tag 9) parses to a message `Decrypt` refuses -/
 theorem sed_packet_refused (E : Bytes → Bytes → Bytes) (sha1 : Bytes → Bytes) (op : Open) (enc rest key : Bytes)
     (m : Msg) (h : msgParse (sedPacket enc ++ rest) = .ok m) :
     (msgDecrypt E sha1 op m key).1 = false := by
-  sorry
+  have e : sedPacket enc ++ rest = 201 :: (packetLengthEncode enc.length ++ enc ++ rest) := by
+    unfold sedPacket packetTagEncode
+    simp
+  rw [e] at h
+  have := msgParse_C9 _ m h
+  exact no_mdc_refused E sha1 op m key this.2 this.1
 
 /-- **the honest sender's message decrypts**: plaintext with appended MDC packet, sealed without
     resynchronisation, is accepted and returned (with the MDC packet, which the caller parses off) -/
@@ -122,7 +333,28 @@ theorem seipd_roundtrip (E : Bytes → Bytes → Bytes) (sha1 : Bytes → Bytes)
     msgDecrypt E sha1 op
       { version := 1, haveSeipd := true, encrypted := seipdSeal (E k) sha1 (blockLength algo) pfx body }
       (wrapKey algo k) = (true, body ++ mdcPacket sha1 pfx body) := by
-  sorry
+  have hne : seipdSeal (E k) sha1 (blockLength algo) pfx body ≠ [] := by
+    intro h
+    have := congrArg List.length h
+    unfold seipdSeal at this
+    rw [length_cfbEncrypt] at this
+    simp only [List.length_nil] at this
+    omega
+  have hsk : msgSessionKey (keyLength algo) (wrapKey algo k) = some (wrapKey algo k) := by
+    unfold msgSessionKey
+    rw [if_pos (by rw [length_wrapKey, hk])]
+  have hd : symDecrypt E algo (seipdSeal (E k) sha1 (blockLength algo) pfx body) (wrapKey algo k) [] false
+      = ⟨0, wrapKey algo k, pfx, body ++ mdcPacket sha1 pfx body⟩ := by
+    unfold seipdSeal
+    exact symDecrypt_cfbEncrypt E algo k pfx _ false hbs hks hk hp hrep
+  have hacc := (mdc_accept_iff sha1 pfx (body ++ mdcPacket sha1 pfx body) hsha).mpr ⟨body, hbody, rfl⟩
+  obtain ⟨h1, h2, h3, h4⟩ := hacc
+  unfold msgDecrypt
+  simp only [Bool.not_false, and_true, Bool.false_eq_true, if_false, if_true]
+  rw [if_neg hne, if_pos (wrapKey_ne_nil algo k), headD_wrapKey, hsk]
+  simp only [hd]
+  rw [if_neg (by simp), if_neg h1, if_neg h2, if_neg h3]
+  simp only [h4, decide_true]
 
 /-! ### 2. AEAD chunks -/
 
@@ -132,17 +364,154 @@ structure SealOpen (sealf : Seal) (open_ : Open) : Prop where
   tagLen : ∀ k n a p, (sealf k n a p).2.length = 16
   opens : ∀ k n a p, open_ k n a (sealf k n a p).1 (sealf k n a p).2 = some p
 
+/-- the decryption loop undoes the encryption loop on the full chunks, whatever follows -/
+theorem encdec_loop (sealf : Seal) (open_ : Open) (h : SealOpen sealf open_)
+    (k : Bytes) (aead is cd : Nat) (hdr : Bytes) (c : Nat) :
+    ∀ (idx : Nat) (ivbuf rest tail : Bytes), c * cd ≤ rest.length →
+      decLoop open_ k aead is cd hdr c idx ivbuf
+          ((encLoop sealf k aead is cd hdr c idx ivbuf rest).1 ++ tail) =
+        (0, rest.take (c * cd), (encLoop sealf k aead is cd hdr c idx ivbuf rest).2.1,
+          (encLoop sealf k aead is cd hdr c idx ivbuf rest).2.2.1, tail) ∧
+      (encLoop sealf k aead is cd hdr c idx ivbuf rest).2.2.2 = rest.drop (c * cd) ∧
+      (encLoop sealf k aead is cd hdr c idx ivbuf rest).1.length = c * (cd + 16) := by
+  induction c with
+  | zero => intro idx ivbuf rest tail _; simp [encLoop, decLoop]
+  | succ c ih =>
+    intro idx ivbuf rest tail hle
+    have hle' : cd + c * cd ≤ rest.length := by rw [Nat.succ_mul] at hle; omega
+    have htk : (rest.take cd).length = cd := by rw [List.length_take]; omega
+    have hdl : c * cd ≤ (rest.drop cd).length := by rw [List.length_drop]; omega
+    obtain ⟨ih1, ih2, ih3⟩ := ih (idx+1) (nonceStep aead ivbuf idx) (rest.drop cd) tail hdl
+    simp only [encLoop]
+    generalize hs : sealf k ((nonceStep aead ivbuf idx).take is) (hdr ++ be8 idx) (rest.take cd) = s
+    have h1 : s.1.length = cd := by rw [← hs, h.ctLen, htk]
+    have h2 : s.2.length = 16 := by rw [← hs]; exact h.tagLen ..
+    have ho := h.opens k ((nonceStep aead ivbuf idx).take is) (hdr ++ be8 idx) (rest.take cd)
+    rw [hs] at ho
+    generalize hr : encLoop sealf k aead is cd hdr c (idx + 1) (nonceStep aead ivbuf idx) (rest.drop cd) = r at *
+    refine ⟨?_, ?_, ?_⟩
+    · rw [decLoop]
+      have e1 : (s.1 ++ s.2 ++ r.1 ++ tail).take cd = s.1 := by
+        rw [List.append_assoc, List.append_assoc, ← h1, List.take_left]
+      have e2 : ((s.1 ++ s.2 ++ r.1 ++ tail).drop cd).take 16 = s.2 := by
+        rw [List.append_assoc, List.append_assoc, ← h1, List.drop_left, ← h2, List.take_left]
+      have e3 : (s.1 ++ s.2 ++ r.1 ++ tail).drop (cd + 16) = r.1 ++ tail := by
+        rw [← List.drop_drop, List.append_assoc, List.append_assoc, ← h1, List.drop_left, ← h2, List.drop_left]
+      have e4 : ¬ (s.1 ++ s.2 ++ r.1 ++ tail).length < cd + 16 := by
+        simp only [List.length_append]; omega
+      simp only [e1, e2, e3, if_neg e4, ho, ih1]
+      rw [Nat.succ_mul, Nat.add_comm (c * cd) cd, List.take_add]
+    · rw [ih2, List.drop_drop]; congr 1; rw [Nat.succ_mul]; omega
+    · simp only [List.length_append, h1, h2, ih3]; ring
+
+theorem aead_chunks_arith (n cd : Nat) (hcd : 0 < cd) (hn : 1 ≤ n) :
+    (n - 1) / cd * cd < n ∧ n ≤ (n - 1) / cd * cd + cd := by
+  have h1 := Nat.div_add_mod (n - 1) cd
+  have h2 := Nat.mod_lt (n - 1) hcd
+  rw [Nat.mul_comm] at h1
+  generalize (n - 1) / cd * cd = m at *
+  omega
+
+set_option maxHeartbeats 400000 in
 /-- **AEAD round trip** for every non-empty plaintext and every chunk size octet (in particular for
     lengths that are multiples of the chunk size) -/
 theorem aead_decrypt_encrypt (sealf : Seal) (open_ : Open) (h : SealOpen sealf open_)
     (k iv ad input : Bytes) (aead cs : Nat) (hin : input ≠ []) (hiv : iv.length = aeadIvLength aead) :
     aeadDecryptCore open_ k aead cs iv ad (aeadEncryptCore sealf k aead cs iv ad input) = (0, input) := by
-  sorry
+  have hn : 1 ≤ input.length := by
+    cases input with
+    | nil => exact absurd rfl hin
+    | cons a l => simp
+  have hcd : 0 < 2 ^ (cs + 6) := Nat.two_pow_pos _
+  obtain ⟨ha1, ha2⟩ := aead_chunks_arith input.length (2 ^ (cs + 6)) hcd hn
+  have hivb : (iv.take (aeadIvLength aead) ++ List.replicate 16 0).take 16
+      = (iv ++ List.replicate 16 0).take 16 := by
+    rw [List.take_of_length_le (le_of_eq hiv)]
+  unfold aeadEncryptCore
+  simp only []
+  generalize hcdv : 2 ^ (cs + 6) = cd at *
+  generalize hhdr : (adBuf ad).take 5 = hdr
+  generalize hiv0 : (iv ++ List.replicate 16 0).take 16 = ivbuf0 at *
+  generalize hch : (input.length - 1) / cd = chunks at *
+  have hloop := fun tail => encdec_loop sealf open_ h k aead (aeadIvLength aead) cd hdr chunks 0 ivbuf0 input
+    tail (le_of_lt ha1)
+  generalize hr : encLoop sealf k aead (aeadIvLength aead) cd hdr chunks 0 ivbuf0 input = r at *
+  obtain ⟨o, idx, ivb, rest⟩ := r
+  simp only at hloop ⊢
+  have hs1 := h.ctLen k ((nonceStep aead ivb idx).take (aeadIvLength aead)) (hdr ++ be8 idx) rest
+  have hs2 := h.tagLen k ((nonceStep aead ivb idx).take (aeadIvLength aead)) (hdr ++ be8 idx) rest
+  have hso := h.opens k ((nonceStep aead ivb idx).take (aeadIvLength aead)) (hdr ++ be8 idx) rest
+  generalize sealf k ((nonceStep aead ivb idx).take (aeadIvLength aead)) (hdr ++ be8 idx) rest = s at *
+  have hf1 := h.ctLen k ((nonceStep aead (nonceStep aead ivb idx) (idx + 1)).take (aeadIvLength aead))
+    (hdr ++ be8 (idx + 1) ++ be8 (chunks * cd + rest.length)) []
+  have hf2 := h.tagLen k ((nonceStep aead (nonceStep aead ivb idx) (idx + 1)).take (aeadIvLength aead))
+    (hdr ++ be8 (idx + 1) ++ be8 (chunks * cd + rest.length)) []
+  have hfo := h.opens k ((nonceStep aead (nonceStep aead ivb idx) (idx + 1)).take (aeadIvLength aead))
+    (hdr ++ be8 (idx + 1) ++ be8 (chunks * cd + rest.length)) []
+  generalize sealf k ((nonceStep aead (nonceStep aead ivb idx) (idx + 1)).take (aeadIvLength aead))
+    (hdr ++ be8 (idx + 1) ++ be8 (chunks * cd + rest.length)) [] = f at *
+  obtain ⟨hl1, hl2, hl3⟩ := hloop (s.1 ++ s.2 ++ f.2)
+  have hrl : rest.length = input.length - chunks * cd := by rw [hl2, List.length_drop]
+  have hf1' : f.1 = [] := List.eq_nil_of_length_eq_zero hf1
+  rw [hf1'] at hfo
+  have hN : (o ++ s.1 ++ s.2 ++ f.2).length = chunks * (cd + 16) + rest.length + 32 := by
+    simp only [List.length_append, hl3, hs1, hs2, hf2]
+  have hdiv : ((o ++ s.1 ++ s.2 ++ f.2).length - 17) / (cd + 16) = chunks := by
+    rw [hN]
+    apply Nat.div_eq_of_lt_le
+    · omega
+    · rw [Nat.succ_mul]; omega
+  have h33 : ¬ (o ++ s.1 ++ s.2 ++ f.2).length < 33 := by rw [hN]; omega
+  have hassoc : o ++ s.1 ++ s.2 ++ f.2 = o ++ (s.1 ++ s.2 ++ f.2) := by simp only [List.append_assoc]
+  unfold aeadDecryptCore
+  simp only [hcdv, hhdr, hivb, if_neg h33, hdiv]
+  rw [hassoc, hl1]
+  have htl : (s.1 ++ s.2 ++ f.2).length - 32 = s.1.length := by
+    simp only [List.length_append, hs2, hf2]; omega
+  have ht32 : ¬ (s.1 ++ s.2 ++ f.2).length < 32 := by
+    simp only [List.length_append, hs2, hf2]; omega
+  have e1 : (s.1 ++ s.2 ++ f.2).take s.1.length = s.1 := by
+    rw [List.append_assoc, List.take_left]
+  have e2 : ((s.1 ++ s.2 ++ f.2).drop s.1.length).take 16 = s.2 := by
+    rw [List.append_assoc, List.drop_left, ← hs2, List.take_left]
+  have e3 : ((s.1 ++ s.2 ++ f.2).drop (s.1.length + 16)).take 16 = f.2 := by
+    rw [← List.drop_drop, List.append_assoc, List.drop_left, ← hs2, List.drop_left, hs2, ← hf2,
+      List.take_length]
+  have hne : ¬ ((0 : Nat) ≠ 0) := by simp
+  rw [hs1] at htl e1 e2 e3
+  simp only [hne, if_false, if_neg ht32, htl, e1, e2, e3, hso, hfo]
+  rw [hl2, List.take_append_drop]
+
+theorem aeadEncSessionKey_err (ks : Nat) (coins : List Bytes) (seskey : Bytes) (e : Nat)
+    (h : aeadEncSessionKey ks coins seskey = .error e) : e ≠ 0 := by
+  unfold aeadEncSessionKey at h
+  simp only at h
+  split at h
+  · split at h
+    · injection h with h; subst h; decide
+    · cases h
+  · split at h
+    · cases h
+    · split at h
+      · cases h
+      · injection h with h; subst h; decide
 
 /-- the empty plaintext is refused by the encryption routine -/
 theorem aead_empty_refused (sealf : Seal) (coins : List Bytes) (seskey : Bytes) (sk ae cs : Nat) (ad : Bytes) :
     (aeadEncrypt sealf coins [] seskey sk ae cs ad).rc ≠ 0 := by
-  sorry
+  unfold aeadEncrypt
+  simp only
+  split
+  · show GPG_ERR_CIPHER_ALGO ≠ 0; decide
+  · split
+    · show GPG_ERR_NOT_SUPPORTED ≠ 0; decide
+    · split
+      · show GPG_ERR_NOT_SUPPORTED ≠ 0; decide
+      · split
+        · rename_i e he
+          exact aeadEncSessionKey_err _ _ _ _ he
+        · simp only [if_true]
+          split <;> (show GPG_ERR_TOO_SHORT ≠ 0; decide)
 
 /-- the (nonce, additional data, plaintext) triples of the sealing calls made for the full chunks -/
 def loopCalls (aead is cd : Nat) (hdr : Bytes) : Nat → Nat → Bytes → Bytes → List (Bytes × Bytes × Bytes)
@@ -175,6 +544,428 @@ def sealCalls (aead cs : Nat) (iv ad input : Bytes) : List (Bytes × Bytes × By
 def Ideal (sealf : Seal) (open_ : Open) (k : Bytes) (calls : List (Bytes × Bytes × Bytes)) : Prop :=
   ∀ n a c t p, open_ k n a c t = some p → (n, a, p) ∈ calls ∧ (c, t) = sealf k n a p
 
+/-! #### helper lemmas for `aead_tamper_evident` and `aead_ad_bound` -/
+
+theorem length_be8 (n : Nat) : (be8 n).length = 8 := by
+  simp [be8, scalarEightEncode, scalarFourEncode]
+
+theorem be8_inj {a b : Nat} (ha : a < 2 ^ 64) (hb : b < 2 ^ 64) (h : be8 a = be8 b) : a = b := by
+  have h1 := scalarEight_value a
+  have h2 := scalarEight_value b
+  unfold be8 at h
+  rw [h] at h1
+  have := h1.symm.trans h2
+  rwa [Nat.mod_eq_of_lt ha, Nat.mod_eq_of_lt hb] at this
+
+/-- the sealing calls from chunk `idx` on: `c` full chunks, the last chunk, the final tag
+    (`T`: the total length authenticated by the final tag) -/
+def tailCalls (aead is cd : Nat) (hdr : Bytes) (T : Nat) :
+    Nat → Nat → Bytes → Bytes → List (Bytes × Bytes × Bytes)
+  | 0, idx, ivbuf, rest =>
+    [((nonceStep aead ivbuf idx).take is, hdr ++ be8 idx, rest),
+     ((nonceStep aead (nonceStep aead ivbuf idx) (idx + 1)).take is,
+        hdr ++ be8 (idx + 1) ++ be8 T, [])]
+  | c + 1, idx, ivbuf, rest =>
+    ((nonceStep aead ivbuf idx).take is, hdr ++ be8 idx, rest.take cd) ::
+      tailCalls aead is cd hdr T c (idx + 1) (nonceStep aead ivbuf idx) (rest.drop cd)
+
+/-- the sender's cipher text from chunk `idx` on -/
+def tailCipher (sealf : Seal) (k : Bytes) (aead is cd : Nat) (hdr : Bytes) (T : Nat) :
+    Nat → Nat → Bytes → Bytes → Bytes
+  | 0, idx, ivbuf, rest =>
+    (sealf k ((nonceStep aead ivbuf idx).take is) (hdr ++ be8 idx) rest).1 ++
+    (sealf k ((nonceStep aead ivbuf idx).take is) (hdr ++ be8 idx) rest).2 ++
+    (sealf k ((nonceStep aead (nonceStep aead ivbuf idx) (idx + 1)).take is)
+        (hdr ++ be8 (idx + 1) ++ be8 T) []).2
+  | c + 1, idx, ivbuf, rest =>
+    (sealf k ((nonceStep aead ivbuf idx).take is) (hdr ++ be8 idx) (rest.take cd)).1 ++
+    (sealf k ((nonceStep aead ivbuf idx).take is) (hdr ++ be8 idx) (rest.take cd)).2 ++
+      tailCipher sealf k aead is cd hdr T c (idx + 1) (nonceStep aead ivbuf idx) (rest.drop cd)
+
+/-- the receiver's work from chunk `idx` on: `c` full chunks, the last chunk, the final tag -/
+def decTail (open_ : Open) (k : Bytes) (aead is cd : Nat) (hdr : Bytes) (base : Nat) :
+    Nat → Nat → Bytes → Bytes → Nat × Bytes
+  | 0, idx, ivbuf, rest =>
+    if rest.length < 32 then (GPG_ERR_TOO_SHORT, [])
+    else
+      match open_ k ((nonceStep aead ivbuf idx).take is) (hdr ++ be8 idx)
+          (rest.take (rest.length - 32)) ((rest.drop (rest.length - 32)).take 16) with
+      | none => (GPG_ERR_CHECKSUM, [])
+      | some p =>
+        match open_ k ((nonceStep aead (nonceStep aead ivbuf idx) (idx + 1)).take is)
+            (hdr ++ be8 (idx + 1) ++ be8 (base + (rest.length - 32))) []
+            ((rest.drop (rest.length - 32 + 16)).take 16) with
+        | none => (GPG_ERR_CHECKSUM, p)
+        | some _ => (0, p)
+  | c + 1, idx, ivbuf, rest =>
+    if rest.length < cd + 16 then (GPG_ERR_TOO_SHORT, [])
+    else
+      match open_ k ((nonceStep aead ivbuf idx).take is) (hdr ++ be8 idx) (rest.take cd)
+          ((rest.drop cd).take 16) with
+      | none => (GPG_ERR_CHECKSUM, [])
+      | some p =>
+        ((decTail open_ k aead is cd hdr base c (idx + 1) (nonceStep aead ivbuf idx)
+            (rest.drop (cd + 16))).1,
+         p ++ (decTail open_ k aead is cd hdr base c (idx + 1) (nonceStep aead ivbuf idx)
+            (rest.drop (cd + 16))).2)
+
+theorem loopCalls_tail (aead is cd : Nat) (hdr : Bytes) (T : Nat) (c idx : Nat) (ivbuf rest : Bytes) :
+    loopCalls aead is cd hdr c idx ivbuf rest ++
+      [((nonceStep aead (loopEnd aead cd c idx ivbuf rest).2.1 (loopEnd aead cd c idx ivbuf rest).1).take is,
+          hdr ++ be8 (loopEnd aead cd c idx ivbuf rest).1, (loopEnd aead cd c idx ivbuf rest).2.2),
+       ((nonceStep aead (nonceStep aead (loopEnd aead cd c idx ivbuf rest).2.1
+            (loopEnd aead cd c idx ivbuf rest).1) ((loopEnd aead cd c idx ivbuf rest).1 + 1)).take is,
+          hdr ++ be8 ((loopEnd aead cd c idx ivbuf rest).1 + 1) ++ be8 T, [])]
+      = tailCalls aead is cd hdr T c idx ivbuf rest := by
+  induction c generalizing idx ivbuf rest with
+  | zero => simp [loopCalls, loopEnd, tailCalls]
+  | succ c ih =>
+    simp only [loopCalls, loopEnd, tailCalls, List.cons_append]
+    rw [ih]
+
+theorem sealCalls_eq (aead cs : Nat) (iv ad input : Bytes) :
+    sealCalls aead cs iv ad input =
+      tailCalls aead (aeadIvLength aead) (2 ^ (cs + 6)) ((adBuf ad).take 5)
+        ((input.length - 1) / 2 ^ (cs + 6) * 2 ^ (cs + 6) +
+          (loopEnd aead (2 ^ (cs + 6)) ((input.length - 1) / 2 ^ (cs + 6)) 0
+            ((iv ++ List.replicate 16 0).take 16) input).2.2.length)
+        ((input.length - 1) / 2 ^ (cs + 6)) 0 ((iv ++ List.replicate 16 0).take 16) input := by
+  unfold sealCalls
+  simp only
+  rw [loopCalls_tail]
+
+theorem encLoop_snd (sealf : Seal) (k : Bytes) (aead is cd : Nat) (hdr : Bytes) (c idx : Nat)
+    (ivbuf rest : Bytes) :
+    (encLoop sealf k aead is cd hdr c idx ivbuf rest).2 = loopEnd aead cd c idx ivbuf rest := by
+  induction c generalizing idx ivbuf rest with
+  | zero => simp [encLoop, loopEnd]
+  | succ c ih => simp only [encLoop, loopEnd]; rw [ih]
+
+theorem encLoop_tail (sealf : Seal) (k : Bytes) (aead is cd : Nat) (hdr : Bytes) (T : Nat) (c idx : Nat)
+    (ivbuf rest : Bytes) :
+    (encLoop sealf k aead is cd hdr c idx ivbuf rest).1 ++
+      (sealf k ((nonceStep aead (loopEnd aead cd c idx ivbuf rest).2.1
+          (loopEnd aead cd c idx ivbuf rest).1).take is)
+          (hdr ++ be8 (loopEnd aead cd c idx ivbuf rest).1) (loopEnd aead cd c idx ivbuf rest).2.2).1 ++
+      (sealf k ((nonceStep aead (loopEnd aead cd c idx ivbuf rest).2.1
+          (loopEnd aead cd c idx ivbuf rest).1).take is)
+          (hdr ++ be8 (loopEnd aead cd c idx ivbuf rest).1) (loopEnd aead cd c idx ivbuf rest).2.2).2 ++
+      (sealf k ((nonceStep aead (nonceStep aead (loopEnd aead cd c idx ivbuf rest).2.1
+            (loopEnd aead cd c idx ivbuf rest).1) ((loopEnd aead cd c idx ivbuf rest).1 + 1)).take is)
+          (hdr ++ be8 ((loopEnd aead cd c idx ivbuf rest).1 + 1) ++ be8 T) []).2
+      = tailCipher sealf k aead is cd hdr T c idx ivbuf rest := by
+  induction c generalizing idx ivbuf rest with
+  | zero => simp [encLoop, loopEnd, tailCipher]
+  | succ c ih =>
+    simp only [encLoop, loopEnd, tailCipher, List.append_assoc]
+    rw [← ih]
+    simp only [List.append_assoc]
+
+theorem aeadEncryptCore_eq (sealf : Seal) (k : Bytes) (aead cs : Nat) (iv ad input : Bytes) :
+    aeadEncryptCore sealf k aead cs iv ad input =
+      tailCipher sealf k aead (aeadIvLength aead) (2 ^ (cs + 6)) ((adBuf ad).take 5)
+        ((input.length - 1) / 2 ^ (cs + 6) * 2 ^ (cs + 6) +
+          (loopEnd aead (2 ^ (cs + 6)) ((input.length - 1) / 2 ^ (cs + 6)) 0
+            ((iv ++ List.replicate 16 0).take 16) input).2.2.length)
+        ((input.length - 1) / 2 ^ (cs + 6)) 0 ((iv ++ List.replicate 16 0).take 16) input := by
+  rw [← encLoop_tail]
+  unfold aeadEncryptCore
+  simp only
+  rw [← encLoop_snd sealf k aead (aeadIvLength aead) (2 ^ (cs + 6)) ((adBuf ad).take 5)]
+
+/-- `decLoop` followed by the last chunk and the final tag is `decTail` -/
+theorem decLoop_tail (open_ : Open) (k : Bytes) (aead is cd : Nat) (hdr : Bytes) (base : Nat)
+    (c idx : Nat) (ivbuf rest : Bytes)
+    (h0 : (decLoop open_ k aead is cd hdr c idx ivbuf rest).1 = 0) :
+    decTail open_ k aead is cd hdr base c idx ivbuf rest =
+      ((decTail open_ k aead is cd hdr base 0 (decLoop open_ k aead is cd hdr c idx ivbuf rest).2.2.1
+          (decLoop open_ k aead is cd hdr c idx ivbuf rest).2.2.2.1
+          (decLoop open_ k aead is cd hdr c idx ivbuf rest).2.2.2.2).1,
+       (decLoop open_ k aead is cd hdr c idx ivbuf rest).2.1 ++
+        (decTail open_ k aead is cd hdr base 0 (decLoop open_ k aead is cd hdr c idx ivbuf rest).2.2.1
+          (decLoop open_ k aead is cd hdr c idx ivbuf rest).2.2.2.1
+          (decLoop open_ k aead is cd hdr c idx ivbuf rest).2.2.2.2).2) := by
+  induction c generalizing idx ivbuf rest with
+  | zero => simp [decLoop]
+  | succ c ih =>
+    by_cases hlt : rest.length < cd + 16
+    · have hd : (decLoop open_ k aead is cd hdr (c + 1) idx ivbuf rest).1 = GPG_ERR_TOO_SHORT := by
+        rw [decLoop]; simp only [if_pos hlt]
+      rw [hd] at h0; simp [GPG_ERR_TOO_SHORT] at h0
+    · cases heq : open_ k ((nonceStep aead ivbuf idx).take is) (hdr ++ be8 idx) (rest.take cd)
+          ((rest.drop cd).take 16) with
+      | none =>
+        have hd : (decLoop open_ k aead is cd hdr (c + 1) idx ivbuf rest).1 = GPG_ERR_CHECKSUM := by
+          rw [decLoop]; simp only [if_neg hlt, heq]
+        rw [hd] at h0; simp [GPG_ERR_CHECKSUM] at h0
+      | some p =>
+        have hd : decLoop open_ k aead is cd hdr (c + 1) idx ivbuf rest =
+            ((decLoop open_ k aead is cd hdr c (idx + 1) (nonceStep aead ivbuf idx)
+                (rest.drop (cd + 16))).1,
+             p ++ (decLoop open_ k aead is cd hdr c (idx + 1) (nonceStep aead ivbuf idx)
+                (rest.drop (cd + 16))).2.1,
+             (decLoop open_ k aead is cd hdr c (idx + 1) (nonceStep aead ivbuf idx)
+                (rest.drop (cd + 16))).2.2) := by
+          rw [decLoop]; simp only [if_neg hlt, heq]
+        rw [hd] at h0 ⊢
+        simp only at h0 ⊢
+        have ht : decTail open_ k aead is cd hdr base (c + 1) idx ivbuf rest =
+            ((decTail open_ k aead is cd hdr base c (idx + 1) (nonceStep aead ivbuf idx)
+                (rest.drop (cd + 16))).1,
+             p ++ (decTail open_ k aead is cd hdr base c (idx + 1) (nonceStep aead ivbuf idx)
+                (rest.drop (cd + 16))).2) := by
+          rw [decTail]; simp only [if_neg hlt, heq]
+        rw [ht, ih _ _ _ h0]
+        simp only [List.append_assoc]
+
+/-- additional data of the calls from chunk `idx` on: index `idx … idx + c` (13 octets after the
+    header), or the final one -/
+theorem tailCalls_mem (aead is cd : Nat) (hdr : Bytes) (T : Nat) (c idx : Nat) (ivbuf rest : Bytes)
+    (x : Bytes × Bytes × Bytes) (hx : x ∈ tailCalls aead is cd hdr T c idx ivbuf rest) :
+    (∃ j, idx ≤ j ∧ j ≤ idx + c ∧ x.2.1 = hdr ++ be8 j) ∨
+    (x.2.1 = hdr ++ be8 (idx + c + 1) ++ be8 T ∧ x.2.2 = []) := by
+  induction c generalizing idx ivbuf rest with
+  | zero =>
+    simp only [tailCalls, List.mem_cons, List.not_mem_nil, or_false] at hx
+    rcases hx with hx | hx
+    · left; exact ⟨idx, le_refl _, by omega, by rw [hx]⟩
+    · right; rw [hx]; exact ⟨rfl, rfl⟩
+  | succ c ih =>
+    simp only [tailCalls, List.mem_cons] at hx
+    rcases hx with hx | hx
+    · left; exact ⟨idx, le_refl _, by omega, by rw [hx]⟩
+    · rcases ih _ _ _ hx with ⟨j, h1, h2, h3⟩ | ⟨h1, h2⟩
+      · left; exact ⟨j, by omega, by omega, h3⟩
+      · right
+        have e : idx + 1 + c + 1 = idx + (c + 1) + 1 := by omega
+        rw [e] at h1
+        exact ⟨h1, h2⟩
+
+/-- the earlier calls: index below `idx` -/
+def PreOK (hdr : Bytes) (idx : Nat) (pre : List (Bytes × Bytes × Bytes)) : Prop :=
+  ∀ x ∈ pre, ∃ j, j < idx ∧ x.2.1 = hdr ++ be8 j
+
+theorem hdr_be8_inj {hdr : Bytes} {a b : Nat} (ha : a < 2 ^ 64) (hb : b < 2 ^ 64)
+    (h : hdr ++ be8 a = hdr ++ be8 b) : a = b :=
+  be8_inj ha hb (List.append_cancel_left h)
+
+theorem hdr_len_ne {hdr : Bytes} {a b t : Nat} (h : hdr ++ be8 a = hdr ++ be8 b ++ be8 t) : False := by
+  have := congrArg List.length h
+  simp only [List.length_append, length_be8] at this
+  omega
+
+/-- the only call with the 13-octet additional data of index `idx` is the first one of the tail -/
+theorem mem13 (aead is cd : Nat) (hdr : Bytes) (T : Nat) (c idx : Nat) (ivbuf rest : Bytes)
+    (pre : List (Bytes × Bytes × Bytes)) (hpre : PreOK hdr idx pre) (hb : idx + c + 1 < 2 ^ 64)
+    (n p : Bytes) (hx : (n, hdr ++ be8 idx, p) ∈ pre ++ tailCalls aead is cd hdr T c idx ivbuf rest) :
+    p = if c = 0 then rest else rest.take cd := by
+  rcases List.mem_append.mp hx with hx | hx
+  · obtain ⟨j, hj, he⟩ := hpre _ hx
+    have := hdr_be8_inj (by omega) (by omega) he
+    omega
+  · cases c with
+    | zero =>
+      simp only [tailCalls, List.mem_cons, List.not_mem_nil, or_false, Prod.mk.injEq] at hx
+      rcases hx with ⟨_, _, h3⟩ | ⟨_, h2, _⟩
+      · simp [h3]
+      · exact (hdr_len_ne h2).elim
+    | succ c =>
+      simp only [tailCalls, List.mem_cons, Prod.mk.injEq] at hx
+      rcases hx with ⟨_, _, h3⟩ | hx
+      · simp [h3]
+      · rcases tailCalls_mem _ _ _ _ _ _ _ _ _ _ hx with ⟨j, h1, h2, h3⟩ | ⟨h1, _⟩
+        · have := hdr_be8_inj (by omega) (by omega) h3
+          omega
+        · exact (hdr_len_ne h1).elim
+
+/-- the only call with a 21-octet additional data is the final one -/
+theorem mem21 (aead is cd : Nat) (hdr : Bytes) (T : Nat) (c idx : Nat) (ivbuf rest : Bytes)
+    (pre : List (Bytes × Bytes × Bytes)) (hpre : PreOK hdr idx pre)
+    (n p : Bytes) (j t : Nat)
+    (hx : (n, hdr ++ be8 j ++ be8 t, p) ∈ pre ++ tailCalls aead is cd hdr T c idx ivbuf rest) :
+    be8 j = be8 (idx + c + 1) ∧ be8 t = be8 T ∧ p = [] := by
+  rcases List.mem_append.mp hx with hx | hx
+  · obtain ⟨j', _, he⟩ := hpre _ hx
+    exact (hdr_len_ne he.symm).elim
+  · rcases tailCalls_mem _ _ _ _ _ _ _ _ _ _ hx with ⟨j', _, _, h3⟩ | ⟨h1, h2⟩
+    · exact (hdr_len_ne h3.symm).elim
+    · simp only [List.append_assoc] at h1
+      have h4 := List.append_cancel_left h1
+      have h5 := List.append_inj h4 (by simp only [length_be8])
+      exact ⟨h5.1, h5.2, h2⟩
+
+/-- no call has the 13-octet additional data of the index after the last chunk -/
+theorem nomem13 (aead is cd : Nat) (hdr : Bytes) (T : Nat) (idx : Nat) (ivbuf rest : Bytes)
+    (pre : List (Bytes × Bytes × Bytes)) (hpre : PreOK hdr idx pre) (hb : idx + 1 < 2 ^ 64)
+    (n p : Bytes) (hx : (n, hdr ++ be8 (idx + 1), p) ∈ pre ++ tailCalls aead is cd hdr T 0 idx ivbuf rest) :
+    False := by
+  rcases List.mem_append.mp hx with hx | hx
+  · obtain ⟨j, hj, he⟩ := hpre _ hx
+    have := hdr_be8_inj (by omega) (by omega) he
+    omega
+  · rcases tailCalls_mem _ _ _ _ _ _ _ _ _ _ hx with ⟨j, h1, h2, h3⟩ | ⟨h1, _⟩
+    · have := hdr_be8_inj (by omega) (by omega) h3
+      omega
+    · exact hdr_len_ne h1
+
+/-- an accepting `decTail` opened something under the additional data of index `idx` -/
+theorem decTail_first (open_ : Open) (k : Bytes) (aead is cd : Nat) (hdr : Bytes) (base : Nat)
+    (c idx : Nat) (ivbuf rest out : Bytes)
+    (h0 : decTail open_ k aead is cd hdr base c idx ivbuf rest = (0, out)) :
+    ∃ ct t p, open_ k ((nonceStep aead ivbuf idx).take is) (hdr ++ be8 idx) ct t = some p := by
+  cases c with
+  | zero =>
+    rw [decTail] at h0
+    split at h0
+    · simp [GPG_ERR_TOO_SHORT] at h0
+    · split at h0
+      · simp [GPG_ERR_CHECKSUM] at h0
+      · rename_i p heq
+        exact ⟨_, _, p, heq⟩
+  | succ c =>
+    rw [decTail] at h0
+    split at h0
+    · simp [GPG_ERR_TOO_SHORT] at h0
+    · split at h0
+      · simp [GPG_ERR_CHECKSUM] at h0
+      · rename_i p heq
+        exact ⟨_, _, p, heq⟩
+
+theorem split3 (rest : Bytes) (len : Nat) (h : rest.length = len + 32) :
+    rest = rest.take len ++ (rest.drop len).take 16 ++ (rest.drop (len + 16)).take 16 := by
+  have h1 : (rest.drop (len + 16)).take 16 = rest.drop (len + 16) := by
+    apply List.take_of_length_le
+    rw [List.length_drop]; omega
+  have h2 : rest.drop (len + 16) = (rest.drop len).drop 16 := by
+    rw [List.drop_drop]
+  rw [h1, h2, List.append_assoc, List.take_append_drop, List.take_append_drop]
+
+theorem split2 (rest : Bytes) (cd : Nat) :
+    rest = rest.take cd ++ (rest.drop cd).take 16 ++ rest.drop (cd + 16) := by
+  have h2 : rest.drop (cd + 16) = (rest.drop cd).drop 16 := by
+    rw [List.drop_drop]
+  rw [h2, List.append_assoc, List.take_append_drop, List.take_append_drop]
+
+/-- **the invariant**: sender and receiver at the same chunk index with the same `ivbuf`; if the
+    receiver accepts the rest of its input, that rest is the rest of the sender's cipher text and
+    what is released is the rest of the plaintext -/
+theorem decTail_honest (sealf : Seal) (open_ : Open) (k : Bytes) (aead is cd : Nat) (hdr : Bytes)
+    (T base : Nat) (c' : Nat) :
+    ∀ (c idx : Nat) (ivbuf rest prest : Bytes) (pre : List (Bytes × Bytes × Bytes)) (out : Bytes),
+      PreOK hdr idx pre → idx + c + 1 < 2 ^ 64 →
+      Ideal sealf open_ k (pre ++ tailCalls aead is cd hdr T c idx ivbuf prest) →
+      decTail open_ k aead is cd hdr base c' idx ivbuf rest = (0, out) →
+      rest = tailCipher sealf k aead is cd hdr T c idx ivbuf prest ∧ out = prest := by
+  induction c' with
+  | zero =>
+    intro c idx ivbuf rest prest pre out hpre hb hI hdec
+    rw [decTail] at hdec
+    split at hdec
+    · simp [GPG_ERR_TOO_SHORT] at hdec
+    · rename_i hlen
+      split at hdec
+      · simp [GPG_ERR_CHECKSUM] at hdec
+      · rename_i p heq1
+        split at hdec
+        · simp [GPG_ERR_CHECKSUM] at hdec
+        · rename_i q heq2
+          obtain ⟨hm1, he1⟩ := hI _ _ _ _ _ heq1
+          obtain ⟨hm2, he2⟩ := hI _ _ _ _ _ heq2
+          have hp := mem13 _ _ _ _ _ _ _ _ _ _ hpre hb _ _ hm1
+          obtain ⟨hj, ht, hq⟩ := mem21 _ _ _ _ _ _ _ _ _ _ hpre _ _ _ _ hm2
+          have hc : c = 0 := by
+            have := be8_inj (by omega) (by omega) hj
+            omega
+          subst hc
+          simp only [if_true] at hp
+          subst hq
+          have ho : out = p := by
+            have := congrArg Prod.snd hdec
+            exact this.symm
+          rw [ho, hp]
+          refine ⟨?_, rfl⟩
+          rw [tailCipher, ← ht, ← hp, ← he1, ← he2]
+          exact split3 rest (rest.length - 32) (by omega)
+  | succ c' ih =>
+    intro c idx ivbuf rest prest pre out hpre hb hI hdec
+    rw [decTail] at hdec
+    split at hdec
+    · simp [GPG_ERR_TOO_SHORT] at hdec
+    · rename_i hlen
+      split at hdec
+      · simp [GPG_ERR_CHECKSUM] at hdec
+      · rename_i p heq1
+        obtain ⟨hm1, he1⟩ := hI _ _ _ _ _ heq1
+        have hp := mem13 _ _ _ _ _ _ _ _ _ _ hpre hb _ _ hm1
+        have hr1 := congrArg Prod.fst hdec
+        have hr2 := congrArg Prod.snd hdec
+        simp only at hr1 hr2
+        have hr : decTail open_ k aead is cd hdr base c' (idx + 1) (nonceStep aead ivbuf idx)
+            (rest.drop (cd + 16)) = (0, (decTail open_ k aead is cd hdr base c' (idx + 1)
+              (nonceStep aead ivbuf idx) (rest.drop (cd + 16))).2) := Prod.ext hr1 rfl
+        cases c with
+        | zero =>
+          exfalso
+          obtain ⟨ct, t, p', hop⟩ := decTail_first _ _ _ _ _ _ _ _ _ _ _ _ hr
+          exact nomem13 _ _ _ _ _ _ _ _ _ hpre (by omega) _ _ (hI _ _ _ _ _ hop).1
+        | succ c =>
+          simp only [Nat.succ_ne_zero, if_false] at hp
+          have hpre' : PreOK hdr (idx + 1)
+              (pre ++ [((nonceStep aead ivbuf idx).take is, hdr ++ be8 idx, prest.take cd)]) := by
+            intro x hx
+            rcases List.mem_append.mp hx with hx | hx
+            · obtain ⟨j, hj, he⟩ := hpre _ hx
+              exact ⟨j, by omega, he⟩
+            · simp only [List.mem_cons, List.not_mem_nil, or_false] at hx
+              exact ⟨idx, by omega, by rw [hx]⟩
+          have hI' : Ideal sealf open_ k
+              ((pre ++ [((nonceStep aead ivbuf idx).take is, hdr ++ be8 idx, prest.take cd)]) ++
+                tailCalls aead is cd hdr T c (idx + 1) (nonceStep aead ivbuf idx) (prest.drop cd)) := by
+            rw [tailCalls] at hI
+            simpa only [List.append_assoc, List.cons_append, List.nil_append] using hI
+          obtain ⟨h1, h2⟩ := ih c (idx + 1) _ _ _ _ _ hpre' (by omega) hI' hr
+          constructor
+          · rw [tailCipher, ← hp, ← he1, ← h1]
+            exact split2 rest cd
+          · rw [← hr2, h2, hp, List.take_append_drop]
+
+/-- an accepting `SymmetricDecryptAEAD` in terms of `decTail` -/
+theorem aeadDecryptCore_tail (open_ : Open) (k : Bytes) (aead cs : Nat) (iv ad c out : Bytes)
+    (hacc : aeadDecryptCore open_ k aead cs iv ad c = (0, out)) :
+    decTail open_ k aead (aeadIvLength aead) (2 ^ (cs + 6)) ((adBuf ad).take 5)
+      ((c.length - 17) / (2 ^ (cs + 6) + 16) * 2 ^ (cs + 6)) ((c.length - 17) / (2 ^ (cs + 6) + 16)) 0
+      ((iv.take (aeadIvLength aead) ++ List.replicate 16 0).take 16) c = (0, out) := by
+  unfold aeadDecryptCore at hacc
+  simp only at hacc
+  by_cases h33 : c.length < 33
+  · rw [if_pos h33] at hacc; simp [GPG_ERR_TOO_SHORT] at hacc
+  · rw [if_neg h33] at hacc
+    have ht := decLoop_tail open_ k aead (aeadIvLength aead) (2 ^ (cs + 6)) ((adBuf ad).take 5)
+      ((c.length - 17) / (2 ^ (cs + 6) + 16) * 2 ^ (cs + 6)) ((c.length - 17) / (2 ^ (cs + 6) + 16)) 0
+      ((iv.take (aeadIvLength aead) ++ List.replicate 16 0).take 16) c
+    generalize hd : decLoop open_ k aead (aeadIvLength aead) (2 ^ (cs + 6)) ((adBuf ad).take 5)
+      ((c.length - 17) / (2 ^ (cs + 6) + 16)) 0
+      ((iv.take (aeadIvLength aead) ++ List.replicate 16 0).take 16) c = d at hacc ht
+    obtain ⟨rc, o, idx, ivbuf, rest⟩ := d
+    simp only at hacc ht
+    by_cases hrc : rc ≠ 0
+    · rw [if_pos hrc] at hacc; exact absurd (congrArg Prod.fst hacc) hrc
+    · rw [if_neg hrc] at hacc
+      have hrc0 : rc = 0 := by omega
+      rw [ht hrc0, decTail]
+      split at hacc
+      · simp [GPG_ERR_TOO_SHORT] at hacc
+      · rename_i hl
+        rw [if_neg hl]
+        split at hacc
+        · simp [GPG_ERR_CHECKSUM] at hacc
+        · rename_i p heq1
+          split at hacc
+          · simp [GPG_ERR_CHECKSUM] at hacc
+          · rename_i q heq2
+            simp only [heq1, heq2]
+            simpa using hacc
+
 /-- **tamper evidence of the chunked format**: if the only tuples that open under `k` are the ones
     sealed while encrypting `input` (same header `ad`, starting IV `iv`), then any string `c` that
     `SymmetricDecryptAEAD` accepts with that IV and header is the sender's cipher text, octet for octet,
@@ -186,7 +977,17 @@ theorem aead_tamper_evident (sealf : Seal) (open_ : Open) (h : SealOpen sealf op
     (hideal : Ideal sealf open_ k (sealCalls aead cs iv ad input))
     (hacc : aeadDecryptCore open_ k aead cs iv ad c = (0, out)) :
     c = aeadEncryptCore sealf k aead cs iv ad input ∧ out = input := by
-  sorry
+  have hdec := aeadDecryptCore_tail open_ k aead cs iv ad c out hacc
+  have htake : iv.take (aeadIvLength aead) = iv := by rw [← hiv, List.take_length]
+  rw [htake] at hdec
+  rw [sealCalls_eq] at hideal
+  rw [aeadEncryptCore_eq]
+  have hb : 0 + (input.length - 1) / 2 ^ (cs + 6) + 1 < 2 ^ 64 := by
+    have h1 : (input.length - 1) / 2 ^ (cs + 6) ≤ input.length - 1 := Nat.div_le_self _ _
+    have h2 : 0 < input.length := List.length_pos_of_ne_nil hin
+    omega
+  exact decTail_honest sealf open_ k aead _ _ _ _ _ _ _ 0 _ c input [] out
+    (fun x hx => by simp at hx) hb (by simpa using hideal) hdec
 
 /-- chunks in another order are refused (unless the reordered string is the original one) -/
 theorem aead_reorder_detected (sealf : Seal) (open_ : Open) (h : SealOpen sealf open_)
@@ -220,7 +1021,19 @@ theorem aead_ad_bound (sealf : Seal) (open_ : Open)
     (hideal : Ideal sealf open_ k (sealCalls aead cs iv ad input))
     (hne : (adBuf ad').take 5 ≠ (adBuf ad).take 5) :
     (aeadDecryptCore open_ k aead cs' iv' ad' c).1 ≠ 0 := by
-  sorry
+  intro h0
+  have hacc : aeadDecryptCore open_ k aead cs' iv' ad' c =
+      (0, (aeadDecryptCore open_ k aead cs' iv' ad' c).2) := Prod.ext h0 rfl
+  have hdec := aeadDecryptCore_tail open_ k aead cs' iv' ad' c _ hacc
+  obtain ⟨ct, t, p, hop⟩ := decTail_first _ _ _ _ _ _ _ _ _ _ _ _ hdec
+  have hm := (hideal _ _ _ _ _ hop).1
+  rw [sealCalls_eq] at hm
+  have hlen : ∀ a : Bytes, ((adBuf a).take 5).length = 5 := by
+    intro a; simp [adBuf]
+  rcases tailCalls_mem _ _ _ _ _ _ _ _ _ _ hm with ⟨j, _, _, h3⟩ | ⟨h1, _⟩
+  · exact hne (List.append_inj h3 (by rw [hlen, hlen])).1
+  · simp only [List.append_assoc] at h1
+    exact hne (List.append_inj h1 (by rw [hlen, hlen])).1
 
 /-! ### 3. signatures -/
 
@@ -503,6 +1316,199 @@ theorem textCanon_crlf (d1 d2 : Bytes) (h : d1.getLast? ≠ some 13) :
   congr 1
   simp only [List.cons_append, List.nil_append, textCanonFrom]
   rw [if_pos ⟨trivial, hl⟩, if_neg (by omega), if_neg (by simp)]
+  simp
+
+/-! ### 4. the encrypted-data packets -/
+
+
+theorem lenEncode_length_pos (n : Nat) : 1 ≤ (packetLengthEncode n).length ∧ (packetLengthEncode n).length ≠ 42 := by
+  unfold packetLengthEncode
+  split
+  · simp
+  · split <;> simp
+
+/-- one new-format packet with a definite length is split off in one step -/
+theorem packetSplit_newformat (t : Nat) (body rest : Bytes) (h7 : t / 128 % 2 = 1) (h6 : t / 64 % 2 = 1)
+    (hl : body.length < 2 ^ 32) :
+    packetSplit (t :: (packetLengthEncode body.length ++ (body ++ rest))) =
+      some (⟨t % 64, true, body⟩, rest) := by
+  obtain ⟨hpos, h42⟩ := lenEncode_length_pos body.length
+  unfold packetSplit
+  simp only
+  rw [if_neg (by omega)]
+  simp only [h6, decide_true, if_true]
+  unfold packetBody
+  simp only
+  rw [len_roundtrip body.length hl (body ++ rest) 0]
+  simp only
+  rw [if_neg (by omega), if_neg h42]
+  simp only [Bool.false_eq_true, false_and, if_false, List.length_append, List.nil_append,
+    Bool.false_or, beq_iff_eq, h42, decide_false]
+  rw [if_neg (by omega)]
+  simp only [List.drop_left, List.take_left]
+  rw [← List.drop_drop, List.drop_left, List.drop_left]
+
+/-- `MessageParse` on an input whose first packet is a new-format packet with a definite length -/
+theorem msgParse_newformat (t : Nat) (body rest : Bytes) (h7 : t / 128 % 2 = 1) (h6 : t / 64 % 2 = 1)
+    (hl : body.length < 2 ^ 32) :
+    msgParse (t :: (packetLengthEncode body.length ++ (body ++ rest))) =
+      match decodePacket ⟨t % 64, true, body⟩ with
+      | .err => .fail
+      | .unmodelled => .unmodelled
+      | .ignore => msgParseLoop ((packetLengthEncode body.length ++ (body ++ rest)).length + 1) rest {}
+      | .sed enc => .ok { haveSed := true, encrypted := enc }
+      | .seipd enc => .ok { version := 1, haveSeipd := true, encrypted := enc }
+      | .mdc h => .ok { mdc := h }
+      | .aead sk ae cs iv enc =>
+        .ok { version := 1, haveAead := true, skalgo := sk, aeadalgo := ae, chunksize := cs, iv := iv,
+              encrypted := enc } := by
+  unfold msgParse
+  simp only [List.length_cons]
+  unfold msgParseLoop
+  rw [if_neg (by simp), packetSplit_newformat t body rest h7 h6 hl]
+  simp only
+  cases decodePacket ⟨t % 64, true, body⟩ <;> rfl
+
+/-- what the library writes as an integrity protected data packet is read back by `MessageParse`
+    (anything behind the packet is not looked at) -/
+theorem msgParse_seipdPacket (enc rest : Bytes) (hne : enc ≠ []) (hl : enc.length + 1 < 2 ^ 32) :
+    msgParse (seipdPacket enc ++ rest) = .ok { version := 1, haveSeipd := true, encrypted := enc } := by
+  have hpos : 1 ≤ enc.length := by
+    cases enc with
+    | nil => exact absurd rfl hne
+    | cons a l => simp
+  have e : seipdPacket enc ++ rest =
+      210 :: (packetLengthEncode (1 :: enc).length ++ ((1 :: enc) ++ rest)) := by
+    unfold seipdPacket packetTagEncode
+    simp [Nat.add_comm]
+  have hd : decodePacket ⟨210 % 64, true, 1 :: enc⟩ = .seipd enc := by
+    unfold decodePacket
+    simp only [List.length_cons, List.headD_cons, List.drop_succ_cons, List.drop_zero]
+    rw [if_neg (by decide), if_pos (by decide), if_neg (by omega), if_neg (by simp)]
+  rw [e, msgParse_newformat 210 (1 :: enc) rest (by decide) (by decide)
+    (by simp only [List.length_cons]; omega), hd]
+
+theorem msgParse_sedPacket (enc rest : Bytes) (hne : enc ≠ []) (hl : enc.length < 2 ^ 32) :
+    msgParse (sedPacket enc ++ rest) = .ok { haveSed := true, encrypted := enc } := by
+  have e : sedPacket enc ++ rest = 201 :: (packetLengthEncode enc.length ++ (enc ++ rest)) := by
+    unfold sedPacket packetTagEncode
+    simp
+  have hd : decodePacket ⟨201 % 64, true, enc⟩ = .sed enc := by
+    unfold decodePacket
+    simp only
+    rw [if_pos (by decide), if_neg hne]
+  rw [e, msgParse_newformat 201 enc rest (by decide) (by decide) hl, hd]
+
+theorem msgParse_aeadPacket (skalgo aeadalgo cs : Nat) (iv enc rest : Bytes) (hne : enc ≠ [])
+    (hiv : iv.length = aeadIvLength aeadalgo) (hl : 4 + iv.length + enc.length < 2 ^ 32) :
+    msgParse (aeadPacket skalgo aeadalgo cs iv enc ++ rest) =
+      .ok { version := 1, haveAead := true, skalgo := skalgo, aeadalgo := aeadalgo, chunksize := cs,
+            iv := iv, encrypted := enc } := by
+  have hpos : 1 ≤ enc.length := by
+    cases enc with
+    | nil => exact absurd rfl hne
+    | cons a l => simp
+  have hlen : ([1, skalgo, aeadalgo, cs] ++ iv ++ enc).length = 4 + iv.length + enc.length := by
+    simp; omega
+  have e : aeadPacket skalgo aeadalgo cs iv enc ++ rest =
+      212 :: (packetLengthEncode ([1, skalgo, aeadalgo, cs] ++ iv ++ enc).length ++
+        (([1, skalgo, aeadalgo, cs] ++ iv ++ enc) ++ rest)) := by
+    rw [hlen]
+    unfold aeadPacket packetTagEncode
+    simp
+  have hd : decodePacket ⟨212 % 64, true, [1, skalgo, aeadalgo, cs] ++ iv ++ enc⟩ =
+      .aead skalgo aeadalgo cs iv enc := by
+    unfold decodePacket
+    simp only [hlen]
+    rw [if_neg (by decide), if_neg (by decide), if_neg (by decide), if_pos (by decide),
+      if_neg (by omega), if_neg (by simp)]
+    have g2 : ([1, skalgo, aeadalgo, cs] ++ iv ++ enc).getD 2 0 = aeadalgo := by simp
+    simp only [g2, ← hiv]
+    rw [if_neg (by omega), if_neg (by omega)]
+    have d4 : ([1, skalgo, aeadalgo, cs] ++ iv ++ enc).drop 4 = iv ++ enc := by simp
+    have d5 : ([1, skalgo, aeadalgo, cs] ++ iv ++ enc).drop (4 + iv.length) = enc := by
+      rw [← List.drop_drop, d4, List.drop_left]
+    rw [d4, d5, List.take_left]
+    simp
+  rw [e, msgParse_newformat 212 _ rest (by decide) (by decide) (by rw [hlen]; exact hl), hd]
+
+/-- **end to end, integrity protected message**: the sender's packet (plaintext, MDC, CFB, packet
+    framing) parses and decrypts to the plaintext followed by its MDC packet -/
+theorem seipd_message_roundtrip (E : Bytes → Bytes → Bytes) (sha1 : Bytes → Bytes) (op : Open)
+    (algo : Nat) (k pfx body rest : Bytes) (m : Msg)
+    (hbs : blockLength algo ≠ 0) (hks : keyLength algo ≠ 0) (hk : k.length = keyLength algo)
+    (hp : pfx.length = blockLength algo + 2)
+    (hrep : pfx.getD (blockLength algo) 0 = pfx.getD (blockLength algo - 2) 0 ∧
+            pfx.getD (blockLength algo + 1) 0 = pfx.getD (blockLength algo - 1) 0)
+    (hbody : body ≠ []) (hsha : ∀ x, (sha1 x).length = 20) (hl : pfx.length + body.length + 23 < 2 ^ 32)
+    (hm : msgParse (seipdPacket (seipdSeal (E k) sha1 (blockLength algo) pfx body) ++ rest) = .ok m) :
+    msgDecrypt E sha1 op m (wrapKey algo k) = (true, body ++ mdcPacket sha1 pfx body) := by
+  have hlen : (seipdSeal (E k) sha1 (blockLength algo) pfx body).length = pfx.length + body.length + 22 := by
+    unfold seipdSeal mdcPacket
+    rw [length_cfbEncrypt]
+    simp only [List.length_append, hsha, List.length_cons, List.length_nil]
+    omega
+  have hne : seipdSeal (E k) sha1 (blockLength algo) pfx body ≠ [] := by
+    intro h0
+    rw [h0] at hlen
+    simp only [List.length_nil] at hlen
+    omega
+  rw [msgParse_seipdPacket _ rest hne (by rw [hlen]; omega)] at hm
+  injection hm with hm
+  subst hm
+  exact seipd_roundtrip E sha1 op algo k pfx body hbs hks hk hp hrep hbody hsha
+
+/-- **end to end, AEAD message**: the sender's packet parses and decrypts to the plaintext, for every
+    16-octet-block cipher, both AEAD modes and every chunk size octet the library accepts -/
+theorem aead_message_roundtrip (E : Bytes → Bytes → Bytes) (sha1 : Bytes → Bytes)
+    (sealf : Seal) (op : Open) (h : SealOpen sealf op)
+    (skalgo aeadalgo cs : Nat) (k iv input rest : Bytes) (m : Msg)
+    (hbs : blockLength skalgo = 16) (hks : keyLength skalgo ≠ 0) (hk : k.length = keyLength skalgo)
+    (hae : aeadalgo = 1 ∨ aeadalgo = 2) (hcs : cs ≤ 21) (hiv : iv.length = aeadIvLength aeadalgo)
+    (hin : input ≠ [])
+    (hl : 4 + iv.length + (aeadEncryptCore sealf k aeadalgo cs iv
+            ([0xD4, 1, skalgo, aeadalgo, cs] ++ List.replicate 8 0) input).length < 2 ^ 32)
+    (hm : msgParse (aeadPacket skalgo aeadalgo cs iv (aeadEncryptCore sealf k aeadalgo cs iv
+            ([0xD4, 1, skalgo, aeadalgo, cs] ++ List.replicate 8 0) input) ++ rest) = .ok m) :
+    msgDecrypt E sha1 op m k = (true, input) := by
+  have hrt := aead_decrypt_encrypt sealf op h k iv
+    ([0xD4, 1, skalgo, aeadalgo, cs] ++ List.replicate 8 0) input aeadalgo cs hin hiv
+  generalize hct : aeadEncryptCore sealf k aeadalgo cs iv
+    ([0xD4, 1, skalgo, aeadalgo, cs] ++ List.replicate 8 0) input = ct at *
+  have hne : ct ≠ [] := by
+    intro h0
+    rw [h0] at hrt
+    unfold aeadDecryptCore at hrt
+    simp only [List.length_nil] at hrt
+    rw [if_pos (by omega)] at hrt
+    injection hrt with h1 h2
+    exact absurd h1 (by decide)
+  rw [msgParse_aeadPacket skalgo aeadalgo cs iv ct rest hne hiv hl] at hm
+  injection hm with hm
+  subst hm
+  have hkpos : k.length ≠ 0 := by rw [hk]; exact hks
+  have hkne : k ≠ [] := by
+    intro h0; rw [h0] at hkpos; exact hkpos rfl
+  have hivl : aeadIvLength aeadalgo = 16 ∨ aeadIvLength aeadalgo = 15 := by
+    rcases hae with rfl | rfl
+    · exact Or.inl rfl
+    · exact Or.inr rfl
+  have hsk : msgSessionKey (keyLength skalgo) k = some k := by
+    unfold msgSessionKey
+    rw [if_neg (by omega), if_neg (by omega), if_pos hk]
+  have hdk : decSessionKey (keyLength skalgo) skalgo false k = .ok (k, k) := by
+    unfold decSessionKey
+    rw [if_neg (by omega), if_pos hk]
+    simp
+  unfold msgDecrypt
+  simp only [Bool.not_true, Bool.false_eq_true, and_false, if_false, if_true]
+  rw [if_neg hne, hsk]
+  simp only
+  unfold aeadDecrypt
+  simp only [hbs, hdk]
+  rw [if_neg (by omega), if_neg hkne, if_neg (by simp), if_neg (by omega), if_neg (by omega),
+    if_neg (by omega), if_neg (by simp)]
+  rw [hrt]
   simp
 
 end Tmcg.PgpMsg
